@@ -66,6 +66,7 @@ func runC04(c *Ctx, r *Report) {
 	r.Rule("C04/level-detection", "a level is a candidate exactly when its pattern matches the prompt and no not-contains string occurs in it (substring); the two list helpers are exists-loops", 3)
 	r.Rule("C04/op-options-applied", "the per-operation option constructors (network, generic, channel) apply the full list in order and leave the loop only on a non-ignored error", 3)
 	r.Rule("C04/graph-links", "buildPrivGraph links every level with its previous level in both directions, unconditionally", 2)
+	r.Rule("C04/opts-forwarded", "every network-driver operation hands its full per-operation option list to each option-taking library callee", 5)
 	r.Rule("C04/step-table", "processAcquirePriv: current-level selection, no-action / transition bookkeeping, next hop and direction on every path", 9)
 	r.Rule("C04/step-wiring", "escalate/deescalate transmit their own level's command; AcquirePriv dispatches each action to its step and returns step errors", 6)
 	r.Rule("C04/bounded", "the AcquirePriv loop is bounded by a counter compared with the number of levels and re-reads the prompt each iteration", 2)
@@ -76,6 +77,7 @@ func runC04(c *Ctx, r *Report) {
 	for _, pk := range []string{"driver/network", "driver/generic", "channel"} {
 		checkOperationApplyLoop(c, r, "C04/op-options-applied", pk)
 	}
+	checkOptsForwarded(c, r, "C04/opts-forwarded", [][2]string{{"driver/network", "Driver"}})
 	acq := c.LookupFunc("driver/network", "Driver", "AcquirePriv")
 	proc := c.LookupFunc("driver/network", "Driver", "processAcquirePriv")
 	esc := c.LookupFunc("driver/network", "Driver", "escalate")
